@@ -104,8 +104,8 @@ theorem html_start_tag_step : type_of% @Verif.Proofs.C09HtmlSpecial.html_start_t
 /-! ## raw-text elements -/
 
 /-- **html_rawtext_end_stable_partial**: see `Verif.Proofs.C09HtmlRaw.html_rawtext_end_stable_partial` — for every
-    option set, model state inside script / style / iframe / textarea, text token without an appropriate end tag (and,
-    for script, without `<!--`: the guard) and sub-minifier satisfying `SubKeeps`: what the model writes is read as
+    option set, model state inside script / style / iframe / textarea, text token without an appropriate end tag (lexer contract `rawTextEndsAtEnd`; for script the output
+    without `<!--`: the guard) and EVERY sub-minifier (html.go 1557146 re-lexes its result): what the model writes is read as
     character tokens byte for byte and the following `</tag>` ends the element. -/
 theorem html_rawtext_end_stable_partial : type_of% @Verif.Proofs.C09HtmlRaw.html_rawtext_end_stable_partial :=
   @Verif.Proofs.C09HtmlRaw.html_rawtext_end_stable_partial
@@ -123,8 +123,8 @@ theorem html_rawtext_then_end_tag : type_of% @Verif.Proofs.C09HtmlRaw.raw_text_t
 
 /-- **html_comment_closed_partial**: see `Verif.Proofs.C09HtmlComment.html_comment_closed_partial` — every comment the
     model writes for a lexer-shaped comment token (verbatim, or a conditional comment with its inside minified) is one
-    comment token; guard: the text does not start with `>` / `->` (K-C09-HTML-1); contract: the recursive result holds no
-    `-->` / `--!>` (K-C09-HTML-3). -/
+    comment token; guard: the text does not start with `>` / `->` (K-C09-HTML-1); no contract on the recursive result any more
+    (3c66722). -/
 theorem html_comment_closed_partial : type_of% @Verif.Proofs.C09HtmlComment.html_comment_closed_partial :=
   @Verif.Proofs.C09HtmlComment.html_comment_closed_partial
 
@@ -157,9 +157,18 @@ theorem html_output_retokenises_lexshape_counterexample :
 theorem html_text_lt_stays_escaped : type_of% @Verif.Proofs.C09HtmlTextLt.html_text_lt_stays_escaped :=
   @Verif.Proofs.C09HtmlTextLt.html_text_lt_stays_escaped
 
-/-- **html_text_safe_not_preserved** (K-C09-HTML-10): `<&#98;>` is written as `<b>` -/
-theorem html_text_safe_not_preserved : type_of% @Verif.Proofs.C09HtmlFlagship.html_text_safe_not_preserved :=
-  @Verif.Proofs.C09HtmlFlagship.html_text_safe_not_preserved
+/-- **html_text_safe_preserved** (replaces the K-C09-HTML-10 counterexample): see
+    `Verif.Proofs.C09HtmlTextLt.html_text_safe_preserved` — an ordinary text token all of whose `<` open nothing is written so
+    that, followed by any byte that opens nothing, all of its `<` still open nothing: a text with `<&` keeps its references
+    (6635adc), elsewhere no decoded reference is or follows a `<`. -/
+theorem html_text_safe_preserved : type_of% @Verif.Proofs.C09HtmlTextLt.html_text_safe_preserved :=
+  @Verif.Proofs.C09HtmlTextLt.html_text_safe_preserved
+
+/-- what the re-lex check of html.go guarantees in the terms of the standard (and where it does not: escaped sections) -/
+theorem html_relex_no_end_tag : type_of% @Verif.Proofs.C09HtmlRelex.relex_noEndTag := @Verif.Proofs.C09HtmlRelex.relex_noEndTag
+
+theorem html_relex_script_counterexample : type_of% @Verif.Proofs.C09HtmlRelex.rawTextEndsAtEnd_script_counterexample :=
+  @Verif.Proofs.C09HtmlRelex.rawTextEndsAtEnd_script_counterexample
 
 /-- pieces compose: the abstract composition lemma behind the flagship -/
 theorem html_pieces_compose : type_of% @Verif.Proofs.C09HtmlPieces.Reads.append := @Verif.Proofs.C09HtmlPieces.Reads.append
